@@ -506,17 +506,17 @@ def ArpOKB (f : Frame) : Prop :=
     (f.arpReq = false → bindOK t.rtrIfs f.dstMac f.pkt.dstIp = true)
 
 /-- the frames that may arrive at node `n`: nobody uses a protected address as source; ARP payloads are well-formed; and
-INSIDE the protected zone no frame is addressed to a protected host.  Nothing else is asked: any protocol, any destination
+INSIDE the protected zone, and on a port that only zone nodes can send to, no frame is addressed to a protected host.  Nothing else is asked: any protocol, any destination
 outside `ba`, any amount of traffic between attacker-side nodes and through the guards. -/
-def ClB (n : Nat) (_ : Nat) (f : Frame) : Prop :=
-  t.ba.contains f.pkt.srcIp = false ∧ ArpOKB t f ∧ (t.inB n = true → t.ba.contains f.pkt.dstIp = false)
+def ClB (n : Nat) (p : Nat) (f : Frame) : Prop :=
+  t.ba.contains f.pkt.srcIp = false ∧ ArpOKB t f ∧ (t.zone n p = true → t.ba.contains f.pkt.dstIp = false)
 
 def needGuard (n : Nat) : Bool := !(t.inB n || t.outside n)
 
 /-- a firewall's lists guard the zone (the Prop behind `fwGuards`); `d e` says for each first entry point whether it is its own
 list that denies the protected addresses (fixed once, from the certified state) or the list of the second entry point -/
-def FwGuardP (d : FwEntry → Bool) (ifs : List Iface) (acls : AclId → Acl) : Prop :=
-  ∀ e, (e = FwEntry.extIn ∨ e = FwEntry.intOut ∨ e = FwEntry.dmzOut) →
+def FwGuardP (need d : FwEntry → Bool) (ifs : List Iface) (acls : AclId → Acl) : Prop :=
+  ∀ e, (e = FwEntry.extIn ∨ e = FwEntry.intOut ∨ e = FwEntry.dmzOut) → need e = true →
     if d e then DeniesClass (ForB t.ba) (acls (entryAcl e))
     else (match e with
        | .dmzOut => DeniesClass (ForB t.ba) (acls .extOut) ∧ DeniesClass (ForB t.ba) (acls .intIn)
@@ -550,7 +550,7 @@ def invB (σ : St Nat (Node W)) (n : Nat) (s : Node W) : Prop :=
   | .host => s.kind = .host ∧ s.ifaces = (σ n).ifaces
   | .switch => s.kind = .switch
   | .rtr => s.kind = .router ∧ s.ifaces = (σ n).ifaces ∧ (needGuard t n = true → DeniesClass (ForB t.ba) (s.acls .router))
-  | .fw => s.kind = .firewall ∧ s.ifaces = (σ n).ifaces ∧ (needGuard t n = true → FwGuardP t (fwD t (σ n)) (σ n).ifaces s.acls)
+  | .fw => s.kind = .firewall ∧ s.ifaces = (σ n).ifaces ∧ (needGuard t n = true → FwGuardP t (fun e => !t.fromB n (portOf e)) (fwD t (σ n)) (σ n).ifaces s.acls)
   | .deaf => s = σ n
 
 theorem wire_memB (n q m r : Nat) (h : t.wire n q = some (m, r)) : ((n, q), (m, r)) ∈ t.wires := by
@@ -583,14 +583,35 @@ theorem intoB_cases (n q m r : Nat) (hw : t.wire n q = some (m, r)) (hm : t.inB 
     · have := outside_wire t n q m r ho hw; rw [hm] at this; cases this
   · exact Or.inl rfl
 
+/-- a port that a node outside the zone can send to is not a zone-only port -/
+theorem not_fromB_of_sender (n q m r : Nat) (hw : t.wire n q = some (m, r)) (hn : t.inB n = false) : t.fromB m r = false := by
+  cases h : t.fromB m r
+  · rfl
+  · have := List.all_eq_true.mp h _ (wire_memB t n q m r hw)
+    simp [hn] at this
+
+/-- where a frame sent by a node OUTSIDE the zone lands in the zone's scope, the target is inside the zone and the sender a guard -/
+theorem zone_of_outsider (n q m r : Nat) (hw : t.wire n q = some (m, r)) (hn : t.inB n = false) (hz : t.zone m r = true) :
+    t.inB m = true ∧ needGuard t n = true := by
+  have hf := not_fromB_of_sender t n q m r hw hn
+  have hm : t.inB m = true := by simpa [TopoB.zone, hf] using hz
+  rcases intoB_cases t n q m r hw hm with h | h
+  · rw [hn] at h; cases h
+  · exact ⟨hm, h⟩
+
 theorem certifyB_parts (σ : St Nat (Node W)) (hc : certifyB t σ = true) :
-    (∀ h, t.hops.contains h = true → t.ba.contains h = false) ∧ ∀ n, n < t.roles.length → certifyNodeB t n (σ n) = true := by
+    (∀ h, t.hops.contains h = true → t.ba.contains h = false) ∧
+    (∀ n q m r, t.wire n q = some (m, r) → m < t.roles.length) ∧
+    ∀ n, n < t.roles.length → certifyNodeB t n (σ n) = true := by
   simp only [certifyB, Bool.and_eq_true] at hc
-  refine ⟨?_, fun n hn => List.all_eq_true.mp hc.2 n (List.mem_range.mpr hn)⟩
-  intro h hh
-  have hmem : h ∈ t.hops := by simpa using hh
-  have := List.all_eq_true.mp hc.1 h hmem
-  simpa using this
+  refine ⟨?_, ?_, fun n hn => List.all_eq_true.mp hc.2 n (List.mem_range.mpr hn)⟩
+  · intro h hh
+    have hmem : h ∈ t.hops := by simpa using hh
+    have := List.all_eq_true.mp hc.1.1 h hmem
+    simpa using this
+  · intro n q m r hw
+    have := List.all_eq_true.mp hc.1.2 _ (wire_memB t n q m r hw)
+    simpa using this
 
 theorem role_lt (n : Nat) (h : t.role n ≠ .free) : n < t.roles.length := by
   unfold TopoB.role at h
@@ -602,39 +623,40 @@ theorem role_lt (n : Nat) (h : t.role n ≠ .free) : n < t.roles.length := by
 theorem deniesClass_mono {C D : Packet → Prop} (a : Acl) (h : DeniesClass D a) (hcd : ∀ p, C p → D p) : DeniesClass C a :=
   fun p hp => h p (hcd p hp)
 
-theorem fwGuards_sound (s : Node W) (h : fwGuards t.ba s = true) : FwGuardP t (fwD t s) s.ifaces s.acls := by
-  intro e he
+theorem fwGuards_sound (need : FwEntry → Bool) (s : Node W) (h : fwGuards need t.ba s = true) :
+    FwGuardP t need (fwD t s) s.ifaces s.acls := by
+  intro e he hneed
   simp only [fwGuards, List.all_cons, List.all_nil, Bool.and_true, Bool.and_eq_true] at h
   cases hd : fwD t s e
   · simp only [Bool.false_eq_true, if_false]
     unfold fwD at hd
     rcases he with rfl | rfl | rfl
     · have h1 := h.1
-      simp only [hd, Bool.false_or] at h1
+      simp only [hd, hneed, Bool.not_true, Bool.false_or] at h1
       intro a ha
       have hmem : a ∈ t.ba := by simpa using ha
       exact C06_denyDstCheck_sound _ _ (List.all_eq_true.mp h1 a hmem)
     · have h1 := h.2.1
-      simp only [hd, Bool.false_or] at h1
+      simp only [hd, hneed, Bool.not_true, Bool.false_or] at h1
       intro a ha
       have hmem : a ∈ t.ba := by simpa using ha
       exact C06_denyDstCheck_sound _ _ (List.all_eq_true.mp h1 a hmem)
     · have h1 := h.2.2
-      simp only [hd, Bool.false_or, Bool.and_eq_true] at h1
+      simp only [hd, hneed, Bool.not_true, Bool.false_or, Bool.and_eq_true] at h1
       exact ⟨C06_denyDstCheck_sound _ _ h1.1, C06_denyDstCheck_sound _ _ h1.2⟩
   · simp only [if_true]
     exact C06_denyDstCheck_sound _ _ hd
 
-theorem fwGuardP_bump (d : FwEntry → Bool) (ifs : List Iface) (acls : AclId → Acl) (a : AclId) (q : Packet)
-    (h : FwGuardP t d ifs acls) : FwGuardP t d ifs (fun b => if b = a then (isPermitted (acls a) q).2.2 else acls b) := by
+theorem fwGuardP_bump (need d : FwEntry → Bool) (ifs : List Iface) (acls : AclId → Acl) (a : AclId) (q : Packet)
+    (h : FwGuardP t need d ifs acls) : FwGuardP t need d ifs (fun b => if b = a then (isPermitted (acls a) q).2.2 else acls b) := by
   have key : ∀ (C : Packet → Prop) (b : AclId), DeniesClass C (acls b) →
       DeniesClass C ((fun b => if b = a then (isPermitted (acls a) q).2.2 else acls b) b) := by
     intro C b hb
     by_cases hba : b = a
     · subst hba; simp only [if_true]; exact deniesClass_stable _ _ _ hb
     · simp only [hba, if_false]; exact hb
-  intro e he
-  have h1 := h e he
+  intro e he hneed
+  have h1 := h e he hneed
   cases hd : d e
   · simp only [hd, Bool.false_eq_true, if_false] at h1 ⊢
     rcases he with rfl | rfl | rfl
@@ -664,20 +686,22 @@ theorem arpRequest_exempt (o : Iface) (a : Ip) : subjectToAcl (arpRequestFrame o
 
 /-- an ARP request built on a clean, bound interface for a target outside `ba` is in the class everywhere -/
 theorem clB_arpRequest (o : Iface) (a : Ip) (m r : Nat) (hclean : t.ba.contains o.ip = false)
-    (hbind : bindOK t.rtrIfs o.mac o.ip = true) (ha : t.inB m = true → t.ba.contains a = false) :
+    (hbind : bindOK t.rtrIfs o.mac o.ip = true) (ha : t.zone m r = true → t.ba.contains a = false) :
     ClB t m r (arpRequestFrame o a) :=
   ⟨hclean, fun _ => ⟨fun _ => ⟨rfl, hbind, hclean⟩, fun h => by simp [arpRequestFrame] at h⟩, ha⟩
 
 theorem hostClosedB (σ : St Nat (Node W)) (n : Nat) (hr : t.role n = .host) (hcn : certifyNodeB t n (σ n) = true) :
     (σ n).kind = .host ∧ HostClosed (sysB t apps tbls rtrs bases hFree) (fun _ => true) (ClB t) n (σ n).ifaces := by
   simp only [certifyNodeB, hr, Bool.and_eq_true, beq_iff_eq, Bool.not_eq_true'] at hcn
-  obtain ⟨⟨⟨hk, _⟩, hout⟩, hall⟩ := hcn
+  obtain ⟨⟨⟨hk, hnB'⟩, hout⟩, hall⟩ := hcn
   have hfacts : ∀ (q : Nat) (i : Iface), (σ n).ifaces[q]? = some i → t.ba.contains i.ip = false ∧ bindOK t.rtrIfs i.mac i.ip = true := by
     intro q i hi
     have := List.all_eq_true.mp hall i (List.mem_of_getElem? hi)
     simpa [ifaceClean] using this
-  have hnoB : ∀ q m r, t.wire n q = some (m, r) → t.inB m = true → False := by
-    intro q m r hw hm
+  have hnB : t.inB n = false := hnB'
+  have hnoB : ∀ q m r, t.wire n q = some (m, r) → t.zone m r = true → False := by
+    intro q m r hw hz
+    have hm := (zone_of_outsider t n q m r hw hnB hz).1
     have := outside_wire t n q m r hout hw
     rw [hm] at this; cases this
   refine ⟨hk, ⟨fun _ _ _ _ => rfl, ?_, ?_⟩⟩
@@ -705,10 +729,13 @@ theorem switchClosedB (σ : St Nat (Node W)) (n : Nat) (hr : t.role n = .switch)
   refine ⟨hk, ⟨fun _ _ _ _ => rfl, ?_⟩⟩
   intro p f x q m r _ hcl hw
   refine ⟨hcl.1, arpOKB_ttl t f x hcl.2.1, ?_⟩
-  intro hm
+  intro hzm
   rcases hz with hz | hz
-  · exact hcl.2.2 hz
-  · have := outside_wire t n q m r hz hw; rw [hm] at this; cases this
+  · exact hcl.2.2 (by simp [TopoB.zone, hz])
+  · cases hb : t.inB n
+    · have hm := (zone_of_outsider t n q m r hw hb hzm).1
+      have := outside_wire t n q m r hz hw; rw [hm] at this; cases this
+    · exact hcl.2.2 (by simp [TopoB.zone, hb])
 
 /-- closure of `ClB` under what a router / firewall with clean, registered interfaces emits of its own accord -/
 theorem rtrClosedB (ifs : List Iface) (n : Nat)
@@ -763,7 +790,7 @@ addressed to a protected host whenever it is sent into the zone -/
 theorem fwdOKB (ifs : List Iface) (n : Nat) (f : Frame)
     (hall : ifs.all (fun i => ifaceClean t i && t.rtrIfs.contains (i.mac, i.ip) && bindOK t.rtrIfs i.mac i.ip) = true)
     (hsrc : t.ba.contains f.pkt.srcIp = false) (hne : subjectToAcl f ≠ some false)
-    (hdst : ∀ q m r, t.wire n q = some (m, r) → t.inB m = true → t.ba.contains f.pkt.dstIp = false) :
+    (hdst : ∀ q m r, t.wire n q = some (m, r) → t.zone m r = true → t.ba.contains f.pkt.dstIp = false) :
     FwdOK (sysB t apps tbls rtrs bases hFree) (ClB t) n ifs f := by
   intro q o m r ho hw
   have := List.all_eq_true.mp hall o (List.mem_of_getElem? ho)
@@ -789,14 +816,14 @@ hosts, any sequence of operations on the attacker side leaves the state of every
 Frames to other destinations do cross the guards, the guards' own ARP requests and replies do enter the zone
 (F-C06-dmz-lookup is inside the model), and the other devices of the zone do change: no hypothesis forbids it. -/
 theorem C06_certifiedB_unchanged (σ : St Nat (Node W)) (hc : certifyB t σ = true)
-    (hfree : ∀ n, t.role n = .free → ∀ s p f, ClB t n p f →
+    (hfree : ∀ n, n < t.roles.length → t.role n = .free → ∀ s p f, ClB t n p f →
       EmitsCl (sysB t apps tbls rtrs bases hFree) (ClB t) n (hFree n s p f))
     (ops : List (Nat × Op Nat Nat Frame (Node W)))
     (hops : ∀ o ∈ ops,
       (t.role o.2.node = .host ∧ ∃ a : Node W → SwScript W, o.2.script = fun s => hostOp s (a s)) ∨
       (t.role o.2.node = .free ∧ ∀ s, EmitsCl (sysB t apps tbls rtrs bases hFree) (ClB t) o.2.node (o.2.script s))) :
     ∀ b, t.role b = .deaf → runOps (sysB t apps tbls rtrs bases hFree) σ ops b = σ b := by
-  obtain ⟨hhops, hnode⟩ := certifyB_parts t σ hc
+  obtain ⟨hhops, hrange, hnode⟩ := certifyB_parts t σ hc
   have hcn : ∀ n, t.role n ≠ .free → certifyNodeB t n (σ n) = true := fun n h => hnode n (role_lt t n h)
   have hhost : ∀ n, t.role n = .host → ∀ s, invB t σ n s ↔ (s.kind = .host ∧ s.ifaces = (σ n).ifaces) := by
     intro n hr s; simp [invB, hr]
@@ -812,13 +839,17 @@ theorem C06_certifiedB_unchanged (σ : St Nat (Node W)) (hc : certifyB t σ = tr
     · have := hcn n (by rw [hr]; simp)
       simp only [certifyNodeB, hr, Bool.and_eq_true] at this
       exact this.1.2
-  -- a frame forwarded into the zone by node `n` is not addressed to a protected host
-  have hdstOf : ∀ n p f, ClB t n p f → (needGuard t n = true → t.ba.contains f.pkt.dstIp = false) →
-      ∀ q m r, t.wire n q = some (m, r) → t.inB m = true → t.ba.contains f.pkt.dstIp = false := by
-    intro n p f hcl hg q m r hw hm
-    rcases intoB_cases t n q m r hw hm with h | h
-    · exact hcl.2.2 h
-    · exact hg h
+  -- a frame forwarded into the zone's scope by node `n` is not addressed to a protected host
+  have hdstOf : ∀ n p f, ClB t n p f → (t.zone n p = false → needGuard t n = true → t.ba.contains f.pkt.dstIp = false) →
+      ∀ q m r, t.wire n q = some (m, r) → t.zone m r = true → t.ba.contains f.pkt.dstIp = false := by
+    intro n p f hcl hg q m r hw hz
+    cases hzn : t.zone n p
+    · have hnB : t.inB n = false := by
+        cases h : t.inB n
+        · rfl
+        · simp [TopoB.zone, h] at hzn
+      exact hg hzn (zone_of_outsider t n q m r hw hnB hz).2
+    · exact hcl.2.2 hzn
   have cut : IsCut (sysB t apps tbls rtrs bases hFree) (fun _ => true) (FromSideC (sysB t apps tbls rtrs bases hFree) (fun _ => true) (ClB t))
       (invB t σ) := by
     constructor
@@ -827,8 +858,11 @@ theorem C06_certifiedB_unchanged (σ : St Nat (Node W)) (hc : certifyB t σ = tr
     | free =>
       have hh : (sysB t apps tbls rtrs bases hFree).handler n = hFree n := by simp [sysB, hr]
       rw [hh]
+      have hlt : n < t.roles.length := by
+        obtain ⟨n', q, _, hw⟩ := hK.1
+        exact hrange n' q n p hw
       exact safe_of_interior_emits _ _ (ClB t) _ n rfl (fun s => by simp [invB, hr]) (fun _ _ _ _ => rfl) _
-        (hfree n hr s p f hK.2)
+        (hfree n hlt hr s p f hK.2)
     | host =>
       have hh : (sysB t apps tbls rtrs bases hFree).handler n = nodeRx (hostStd (apps n)) := by simp [sysB, softB, hr]
       rw [hh]
@@ -850,7 +884,7 @@ theorem C06_certifiedB_unchanged (σ : St Nat (Node W)) (hc : certifyB t σ = tr
       intro p' i f' _ hcl hi hm hb hown hv
       have hne := not_exempt_of_unicast t _ p' i f' hi hall hcl.2.1 hm hb hown
       refine fwdOKB t apps tbls rtrs bases hFree _ n f' hall hcl.1 hne (hdstOf n p' f' hcl ?_)
-      intro hg
+      intro _ hg
       rcases hv with hv | ⟨a, ha, hp⟩
       · exact absurd hv hne
       · cases hd : t.ba.contains f'.pkt.dstIp
@@ -862,20 +896,34 @@ theorem C06_certifiedB_unchanged (σ : St Nat (Node W)) (hc : certifyB t σ = tr
       rw [hh]
       have hall := hallR n (Or.inr hr)
       refine C06_fw_safe _ _ (ClB t) _ n (σ n).ifaces t.hops
-        (fun acls => needGuard t n = true → FwGuardP t (fwD t (σ n)) (σ n).ifaces acls)
-        (fun acls a q h hg => fwGuardP_bump t _ _ acls a q (h hg))
+        (fun acls => needGuard t n = true → FwGuardP t (fun e => !t.fromB n (portOf e)) (fwD t (σ n)) (σ n).ifaces acls)
+        (fun acls a q h hg => fwGuardP_bump t _ _ _ acls a q (h hg))
         (fun s => by simp [invB, hr]) rfl (rtrClosedB t apps tbls rtrs bases hFree _ n hhops hall) ?_ (rtrs n) s p f hI hK.1 hK.2
       intro p' i f' e _ hcl hi hpe hm hb hown hv
       have hne := not_exempt_of_unicast t _ p' i f' hi hall hcl.2.1 hm hb hown
       refine fwdOKB t apps tbls rtrs bases hFree _ n f' hall hcl.1 hne (hdstOf n p' f' hcl ?_)
-      intro hg
+      intro hzn hg
       obtain ⟨a1, a2, e2, g1, p1, g2, p2, hsel⟩ := hv
       cases hd : t.ba.contains f'.pkt.dstIp
       · rfl
       · exfalso
         have he := portEntry_first p' e hpe
-        have h1 := g1 hg e he
-        have h2 := g2 hg e he
+        have hport : portOf e = p' := by
+          unfold portEntry at hpe
+          split at hpe
+          · rename_i h; injection hpe with hpe; subst hpe; exact h.symm
+          · split at hpe
+            · rename_i h; injection hpe with hpe; subst hpe; exact h.symm
+            · split at hpe
+              · rename_i h; injection hpe with hpe; subst hpe; exact h.symm
+              · cases hpe
+        have hneed : (!t.fromB n (portOf e)) = true := by
+          rw [hport]
+          cases hfb : t.fromB n p'
+          · rfl
+          · simp [TopoB.zone, hfb] at hzn
+        have h1 := g1 hg e he hneed
+        have h2 := g2 hg e he hneed
         cases hde : fwD t (σ n) e
         · simp only [hde, Bool.false_eq_true, if_false] at h2
           have hself : ForB [f'.pkt.dstIp] f'.pkt := by simp [ForB]
@@ -904,7 +952,7 @@ theorem C06_certifiedB_unchanged (σ : St Nat (Node W)) (hc : certifyB t σ = tr
       have hcd := hcn n (by rw [hr]; simp)
       simp only [certifyNodeB, hr, Bool.and_eq_true, beq_iff_eq] at hcd
       obtain ⟨⟨hk, hin⟩, hall⟩ := hcd
-      have hdst := hK.2.2.2 hin
+      have hdst := hK.2.2.2 (by simp [TopoB.zone, hin])
       rw [hs0, C06_host_deaf (bases n) (σ n) p f hk ?_]
       · exact SafeAct.done (by simp [invB, hr])
       · intro i hi
@@ -938,7 +986,7 @@ theorem C06_certifiedB_unchanged (σ : St Nat (Node W)) (hc : certifyB t σ = tr
       rcases hcd.2 with (h | h) | h
       · rw [hg.1] at h; cases h
       · rw [hg.2] at h; cases h
-      · exact fwGuards_sound t (σ n) h
+      · exact fwGuards_sound t _ (σ n) h
     | deaf => simp [invB, hr]
   have hops' : ∀ o ∈ ops, SafeOp (sysB t apps tbls rtrs bases hFree) (fun _ => true)
       (FromSideC (sysB t apps tbls rtrs bases hFree) (fun _ => true) (ClB t)) (invB t σ) o.2 := by
@@ -955,5 +1003,60 @@ theorem C06_certifiedB_unchanged (σ : St Nat (Node W)) (hc : certifyB t σ = tr
   simpa [invB, hb] using this
 
 end reach3
+
+/-! ## 4. non-vacuity -/
+
+section examplesB
+
+def exDstB : Rule := { anyPattern with dstIp := some 0x0A000214#32 }
+def exDstNet : Rule := { anyPattern with dstIp := some 0x0A000200#32, dstWc := some 0x000000FF#32 }
+
+/-- DENY dst = B, DENY dst = 10.0.2.0/24 (covers the subnet broadcast address), PERMIT any-any behind them -/
+def exDstAcl : Acl :=
+  { rules := [some exDstB, some exDstNet] ++ List.replicate 8 none ++ [some exPermitAny] ++ List.replicate 13 none, implicit := .deny }
+
+def exRouterD : Node Unit := { exRouterC with acls := fun _ => exDstAcl }
+
+/-- A (0) — SW (1) — R (2) — B (3), R denies only what is addressed to B -/
+def exTopoB : TopoB :=
+  { roles := [.host, .switch, .rtr, .deaf], zoneB := [false, false, false, true],
+    wires := [((0, 0), (1, 0)), ((1, 0), (0, 0)), ((1, 1), (2, 0)), ((2, 0), (1, 1)), ((2, 1), (3, 0)), ((3, 0), (2, 1))],
+    ba := [0x0A000214#32, 0x0A0002FF#32], rtrIfs := [(11, 0x0A000101#32), (12, 0x0A000201#32)], hops := [] }
+
+def exStatesB : Nat → Node Unit := fun n =>
+  if n = 1 then exSwitch else if n = 2 then exRouterD else exHost (if n = 0 then 0x0A00010A#32 else 0x0A000214#32)
+
+/-- the list is NOT a deny-everything list and NOT a source-class list (both earlier certificates' scans reject it), the
+destination scan accepts it; `certifyB` accepts the network; it rejects it without the rule for the subnet broadcast address,
+with a PERMIT rule ahead, when B's broadcast address is missing from `ba`, and when a next hop is a protected address -/
+example : denyAllCheck exDstAcl = false ∧ denyClassCheck [exSrcRange] exDstAcl = false ∧
+    denyDstCheck exTopoB.ba exDstAcl = true ∧ certifyB exTopoB exStatesB = true ∧
+    certifyB exTopoB (fun n => if n = 2 then { exRouterD with acls := fun _ =>
+      { exDstAcl with rules := [some exDstB] ++ List.replicate 9 none ++ [some exPermitAny] ++ List.replicate 13 none } } else exStatesB n) = false ∧
+    certifyB exTopoB (fun n => if n = 2 then { exRouterD with acls := fun _ =>
+      { exDstAcl with rules := [some exPermitAny] ++ exDstAcl.rules } } else exStatesB n) = false ∧
+    certifyB { exTopoB with ba := [0x0A000214#32] } exStatesB = false ∧
+    certifyB { exTopoB with hops := [0x0A000214#32] } exStatesB = false := by decide
+
+/-- the theorem applies: whatever A's software sends — to C, to the router, to the other side — B's state never changes -/
+example (apps : Nat → HostApp Unit) (tbls : Nat → SwitchTbl Unit) (rtrs : Nat → RtrOpaque Unit) (bases : Nat → Soft Unit)
+    (hFree : Nat → Node Unit → Nat → Frame → Script Unit) (ops : List (Nat × Op Nat Nat Frame (Node Unit)))
+    (hops : ∀ o ∈ ops, o.2.node = 0 ∧ ∃ a : Node Unit → SwScript Unit, o.2.script = fun s => hostOp s (a s)) :
+    runOps (sysB exTopoB apps tbls rtrs bases hFree) exStatesB ops 3 = exStatesB 3 := by
+  apply C06_certifiedB_unchanged exTopoB apps tbls rtrs bases hFree exStatesB (by decide)
+  · intro n hlt hr; exfalso; revert hr
+    have : n < 4 := hlt
+    match n with
+    | 0 | 1 | 2 | 3 => decide
+  · intro o ho
+    obtain ⟨h0, a, ha⟩ := hops o ho
+    exact Or.inl ⟨by rw [h0]; decide, a, ha⟩
+  · decide
+
+/-- a frame to another destination DOES cross the router: the permitted branch is reached, the forwarding software is asked -/
+example : (isPermitted exDstAcl { proto := .icmp, srcIp := 0x0A00010A#32, dstIp := 0x0A000315#32, ports := none }).1 = true ∧
+    (isPermitted exDstAcl { proto := .icmp, srcIp := 0x0A00010A#32, dstIp := 0x0A000214#32, ports := none }).1 = false := by decide
+
+end examplesB
 
 end Primaite.Filter
